@@ -143,3 +143,80 @@ def structures(ident, tier, seed=0):
 
 def fits(lay_total_bits):
     return (lay_total_bits + 7) // 8 <= 1023
+
+
+def concrete_payload(ident, choose, rnd, spare=1):
+    """a concrete payload for a structure: structural fields from choose(name, w, what) (masks as ('value', v)), every other bit random"""
+    reads = []
+
+    def valueof(name, off, w, what):
+        v = choose(name, w, what)
+        if isinstance(v, tuple):
+            v = v[1]
+            reads.append((off, w, v))
+            return bin(v).count("1") if what == 'popcount' else v
+        reads.append((off, w, v))
+        return v
+    lay = ol.walk(ident, valueof)
+    nbytes = (lay.total + 7) // 8 + spare
+    nb = 8 * nbytes
+    x = rnd.getrandbits(nb)
+
+    def put(off, w, v):
+        nonlocal x
+        if w == 0:
+            return
+        sh = nb - off - w
+        x = (x & ~(((1 << w) - 1) << sh)) | ((v & ((1 << w) - 1)) << sh)
+    put(0, 12, int(ident[:4]))
+    if "_" in ident:
+        put(15, 8, int(ident[5:]))
+    for off, w, v in reads:
+        put(off, w, v)
+    for f in lay.fields:     # text units non-zero (the oracle's stated assumption)
+        if f.typ == "STR" and (x >> (nb - f.off - f.w)) & 0xFF == 0:
+            put(f.off, f.w, 0x41)
+    return x.to_bytes(nbytes, "big"), lay
+
+
+def random_msm_cases(ident, seed, n):
+    """seeded concrete MSM payloads with deliberately awkward masks: last satellite slot, reserved IDs, several signals of one band,
+    partial cell masks.  Used as additional concrete witnesses (replayed on the unmodified code), never as the deciding step."""
+    from pyrtcm.rtcmtables import PRNSIGMAP
+    rnd = random.Random(seed * 977 + int(ident))
+    sigmap = PRNSIGMAP[ident[:3]][1]
+    bands = {}
+    for sid, (band, _) in sigmap.items():
+        bands.setdefault(band, []).append(sid)
+    out = []
+    for i in range(n):
+        nsat = rnd.choice((1, 2, 2, 3, 4))
+        sats = set(rnd.sample(range(1, 65), nsat))
+        if i % 4 == 0:
+            sats.add(64)
+        if i % 5 == 1:
+            sats.add(rnd.choice((52, 53, 40, 25, 11, 38)))
+        sigs = set()
+        same = [b for b in bands.values() if len(b) >= 2]
+        if same and i % 2 == 0:
+            sigs |= set(rnd.sample(rnd.choice(same), 2))
+        while len(sigs) < rnd.choice((1, 2, 3)):
+            sigs.add(rnd.choice(list(sigmap)) if rnd.random() < 0.7 else rnd.randint(1, 32))
+        m394 = sum(1 << (64 - s_) for s_ in sats)
+        m395 = sum(1 << (32 - g_) for g_ in sigs)
+        wc = len(sats) * len(sigs)
+        if wc > 24:
+            continue
+        m396 = rnd.getrandbits(wc) if i % 3 else (1 << wc) - 1
+
+        def choose(name, w, what, m394=m394, m395=m395, m396=m396):
+            if name == "DF394":
+                return ('value', m394)
+            if name == "DF395":
+                return ('value', m395)
+            if name == "DF396":
+                return ('value', m396)
+            return 0
+        pl, _ = concrete_payload(ident, choose, rnd)
+        out.append(pl)
+    return out
